@@ -790,7 +790,7 @@ def r05_8(ctx: Ctx, closure: Dict[str, Func]) -> None:
     ctx.floor("R05.8", n, 1, "size-countdown read loops in the read closure")
     countdown_by_delivered(ctx, closure, "R05.8")
     rd = ctx.prog.func("compressor", "SevenZipDecompressor._read_data")
-    reads = [c for c in q.calls(rd) if attr_tail(c) == "read"]
+    reads = [c for c in q.calls(rd) if attr_tail(c) == "read" or (dotted(c.func) or "").split(".")[-1] == "read_fully"]  # read_fully: the package's short-read loop (R01.15)
     ctx.floor("R05.8", len(reads), 1, "archive reads in _read_data")
     # path-complete: from the FIRST read of the call every way out passes a test of what was delivered against what was asked for
     # (`len(data) < read_size`; not the test of the retry loop, which an EMPTY first read never enters), and its short arm corrects
